@@ -261,8 +261,30 @@ def model_values(m, pre, extra=()):
     return d
 
 
+def error_violation(eng, final, rv, faults):
+    """An Err result is acceptable only under a fault schedule, and then only as the cancellation
+    error (when the callback has answered true) or as the injected store/temp-file error."""
+    if not faults:
+        return "returns Err although nothing failed"
+    err = rv.f.get(0)
+    names = eng.enums.get("Error", [])
+    if isinstance(err, Agg) and err.kind == "Error" and err.disc is not None:
+        d = z3.simplify(err.disc)
+        if z3.is_bv_value(d) and d.as_long() < len(names) and names[d.as_long()] == "BuildCancelled":
+            n = final.env.get("cancel_from")
+            polls = final.env.get("polls", 0)
+            okk, _ = eng.check(final.pc, z3.UGT(n, BV(polls, 32)))
+            if okk:
+                return "reports BuildCancelled although the callback never answered true"
+            return None
+        return f"returns the unexpected error {names[d.as_long()] if z3.is_bv_value(d) and d.as_long() < len(names) else d}"
+    if isinstance(err, Agg) and err.kind == "heed::Error":
+        return None if final.env.get("injected") else "returns a store error that was never injected"
+    return "returns an unidentified error value"
+
+
 # ------------------------------------------------------------------------------------ insert_items_in_file
-def run_insert(ctx, shapes, max_new, deadline):
+def run_insert(ctx, shapes, max_new, deadline, faults=False):
     eng = make_engine(ctx)
     fn = find_fn(ctx.fns, r"writer::.*::insert_items_in_file$")
     results = {"paths": 0, "violations": [], "unknown": [], "shapes": []}
@@ -282,6 +304,10 @@ def run_insert(ctx, shapes, max_new, deadline):
                "leafs": new, "tmp": {"puts": [], "deleted": [], "remap": []}, "sides": []}
         large = Cell(BV(0, U))
         env["large_cell"] = large
+        if faults:
+            env["cancel_from"] = z3.BitVec("cancel_from_poll", 32)
+            env["put_fault_at"] = z3.BitVec("tmp_put_fault_at", 32)
+            pc.append(z3.UGE(env["cancel_from"], 1))
         frozen = Agg("FrozzenReader", None, {0: Ref(Cell(Opaque("leafs"))), 1: Ref(Cell(Opaque("trees"))),
                                              2: Ref(Cell(ids))})
         args = [Ref(Cell(writer_value(index))), Ref(Cell(options_value(split_after))), Ref(Cell(frozen)),
@@ -301,10 +327,12 @@ def run_insert(ctx, shapes, max_new, deadline):
                 continue
             rv = f.value
             if not (isinstance(rv, Agg) and z3.is_true(z3.simplify(rv.disc == BV(0, 64)))):
-                ok, m = eng.check(f.pc)
-                if ok:
-                    results["violations"].append({"shape": shape.name, "clause": "returns Err although nothing failed",
-                                                  "pre": pre, "values": model_values(m, pre, [("set:new_items", new)])})
+                bad = error_violation(eng, f, rv, faults)
+                if bad:
+                    ok, m = eng.check(f.pc)
+                    if ok:
+                        results["violations"].append({"shape": shape.name, "clause": bad,
+                                                      "pre": pre, "values": model_values(m, pre, [("set:new_items", new)])})
                 continue
             n_ok += 1
             try:
@@ -557,7 +585,7 @@ def build_scenario(kind, v):
 
 
 # ------------------------------------------------------------------------------------ delete_items_in_file
-def run_delete(ctx, shapes, deadline):
+def run_delete(ctx, shapes, deadline, faults=False):
     eng = make_engine(ctx)
     fn = find_fn(ctx.fns, r"writer::.*::delete_items_in_file$")
     results = {"paths": 0, "violations": [], "unknown": [], "shapes": []}
@@ -570,6 +598,10 @@ def run_delete(ctx, shapes, deadline):
         remaining = pre.items & ~dele
         env = {"store": dict(pre.store), "frozen": dict(pre.store), "stored_items": remaining,
                "leafs": BV(0, U), "tmp": {"puts": [], "deleted": [], "remap": []}, "sides": []}
+        if faults:
+            env["cancel_from"] = z3.BitVec("cancel_from_poll", 32)
+            env["put_fault_at"] = z3.BitVec("tmp_put_fault_at", 32)
+            pc.append(z3.UGE(env["cancel_from"], 1))
         root_t = z3.simplify(pre.root.f[1])
         args = [Ref(Cell(writer_value(index))), Ref(Cell(options_value(split_after))), Ref(Cell(Opaque("RoTxn"))),
                 root_t, Ref(Cell(Opaque("TmpNodes"))), Ref(Cell(dele))]
@@ -590,10 +622,12 @@ def run_delete(ctx, shapes, deadline):
                 continue
             rv = f.value
             if not z3.is_true(z3.simplify(rv.disc == BV(0, 64))):
-                ok, m = eng.check(f.pc)
-                if ok:
-                    results["violations"].append({"shape": shape.name, "clause": "returns Err although nothing failed",
-                                                  "pre": pre, "values": model_values(m, pre, extra)})
+                bad = error_violation(eng, f, rv, faults)
+                if bad:
+                    ok, m = eng.check(f.pc)
+                    if ok:
+                        results["violations"].append({"shape": shape.name, "clause": bad,
+                                                      "pre": pre, "values": model_values(m, pre, extra)})
                 continue
             n_ok += 1
             try:
@@ -869,3 +903,25 @@ def make_tree_obligation(o, tier, seed):
     r["shapes"] += r2["shapes"]
     r["encoded"] = sorted(set(r["encoded"]) | set(r2["encoded"]))
     return outcomes_from(o, r, "make_tree", native, e2, Outcome)
+
+
+def faults_obligation(o, tier, seed):
+    """C10: the tree steps under a symbolic cancellation point and a symbolic temp-file fault."""
+    import e2
+    import native
+    from driver import Outcome
+    try:
+        ctx = e2.context(True)
+    except RuntimeError as e:
+        return [Outcome(o["id"], "mirsym", "inconclusive", str(e))]
+    shapes = SHAPES_QUICK if tier == "quick" else SHAPES_THOROUGH
+    r = run_insert(ctx, shapes[:4] if tier == "quick" else shapes, 1 if tier == "quick" else 2,
+                   time.time() + (900 if tier == "quick" else 2400), faults=True)
+    r2 = run_delete(ctx, shapes, time.time() + 900, faults=True)
+    for k in ("paths", "queries"):
+        r[k] += r2[k]
+    r["solver_s"] = round(r["solver_s"] + r2["solver_s"], 2)
+    for k in ("violations", "unknown", "shapes"):
+        r[k] += r2[k]
+    r["encoded"] = sorted(set(r["encoded"]) | set(r2["encoded"]))
+    return outcomes_from(o, r, "faults", native, e2, Outcome)
